@@ -710,6 +710,7 @@ func (s *Server) netServe() error {
 						s.statsTotalCommands.Add(1)
 
 						// handle the command
+						s.verifSchedConn(client, "CMD", true)
 						err := s.handleInputCommand(client, msg)
 						if err != nil {
 							if err.Error() == goingLive {
@@ -719,18 +720,26 @@ func (s *Server) netServe() error {
 								var rwc io.ReadWriteCloser = conn
 								client.conn = rwc
 								if len(client.out) > 0 {
+									s.verifSchedConn(client, "P1", true)
 									if s.aofdirty.Load() {
+										s.verifSchedConn(client, "P2", true)
 										func() {
 											// prewrite, the pending replies may
 											// acknowledge writes of this packet.
 											s.mu.Lock()
 											defer s.mu.Unlock()
+											s.verifSchedConn(client, "P3", true)
 											s.flushAOF(false)
+											s.verifSchedConn(client, "P4", true)
 											s.aofdirty.Store(false)
+											s.verifSchedConn(client, "P4U", true)
 										}()
+										s.verifSchedConn(client, "P5", true)
 									}
+									s.verifSchedConn(client, "D6", true)
 									client.conn.Write(client.out)
 									client.out = nil
+									s.verifSchedConn(client, "IDLE", false)
 								}
 								client.in = InputStream{}
 								client.pr.rd = rwc
@@ -781,19 +790,27 @@ func (s *Server) netServe() error {
 
 				// write to client
 				if len(client.out) > 0 {
+					s.verifSchedConn(client, "P1", true)
 					if s.aofdirty.Load() {
+						s.verifSchedConn(client, "P2", true)
 						func() {
 							// prewrite
 							s.mu.Lock()
 							defer s.mu.Unlock()
+							s.verifSchedConn(client, "P3", true)
 							s.flushAOF(false)
+							s.verifSchedConn(client, "P4", true)
 							// clear the flag while still holding the lock: a write
 							// that is appended after the unlock must find it set.
 							s.aofdirty.Store(false)
+							s.verifSchedConn(client, "P4U", true)
 						}()
+						s.verifSchedConn(client, "P5", true)
 					}
+					s.verifSchedConn(client, "P6", true)
 					conn.Write(client.out)
 					client.out = nil
+					s.verifSchedConn(client, "IDLE", false)
 				}
 				if close {
 					break
@@ -934,9 +951,12 @@ func (s *Server) watchLuaStatePool(wg *sync.WaitGroup) {
 func (s *Server) backgroundSyncAOF(wg *sync.WaitGroup) {
 	defer wg.Done()
 	s.loopUntilServerStops(time.Second, func() {
+		s.verifSchedBG("F1")
 		s.mu.LockLowPriority()
 		defer s.mu.Unlock()
+		s.verifSchedBG("F2")
 		s.flushAOF(true)
+		s.verifSchedBG("F3")
 	})
 }
 
